@@ -29,7 +29,10 @@ Classes(entry, dim) ==
            [] dim = "request_host" -> {"none", "empty", "upper", "unicode", "with_port"}
            [] dim = "request_misc" -> {"no_scheme", "ftp_scheme", "empty_method", "lower_method", "v6_addr", "no_date", "headers_5000", "header_dup", "header_empty_name"}
            [] dim = "response" -> {"code_0", "code_65535", "headers_empty", "headers_5000", "content_type_weird", "gzip_garbage", "br_garbage", "deflate_garbage", "encoding_unknown"}
-           [] dim = "body" -> {"empty", "lone_lt", "truncated_tag", "truncated_comment", "invalid_utf8", "script_1mb", "nested_10k", "nul_bytes", "only_end_tags", "cdata", "doctype_only"})
+           [] dim = "body" -> {"empty", "lone_lt", "truncated_tag", "truncated_comment", "invalid_utf8", "script_1mb", "nested_10k", "nul_bytes", "only_end_tags", "cdata", "doctype_only",
+                               "latin1_small_chunks"}
+           \* a SECOND rule loaded next to the first one: two dynamic patterns sharing a prefix (non-ASCII text of 2, 3, 4 byte characters) land in one tree node
+           [] dim = "sibling_rule" -> {"host_cyrillic_prefix", "host_cjk_prefix", "host_2byte_prefix", "host_emoji_prefix", "path_unicode_prefix", "same_source"})
     [] entry = "analysis" ->
          (CASE dim = "example_url" -> {"garbage", "empty", "relative", "unicode", "no_host", "with_fragment"}
            [] dim = "example_misc" -> {"ip_garbage", "ip_v6", "datetime_garbage", "method_weird", "headers_many", "code_65535"}
@@ -42,10 +45,11 @@ Classes(entry, dim) ==
                                      "port_overflow", "empty_brackets", "xff_ports", "for_upper"}
            [] dim = "misc" -> {"no_action", "code_0", "code_65535", "time_max", "headers_5000"})
     [] entry = "tokenizer" ->
-         (CASE dim = "body" -> {"empty", "lone_lt", "truncated_tag", "truncated_comment", "invalid_utf8", "script_1mb", "nested_10k", "nul_bytes", "only_end_tags", "cdata", "doctype_only"})
+         (CASE dim = "body" -> {"empty", "lone_lt", "truncated_tag", "truncated_comment", "invalid_utf8", "script_1mb", "nested_10k", "nul_bytes", "only_end_tags", "cdata", "doctype_only",
+                                "latin1_small_chunks"})
 Dims(entry) ==
   CASE entry = "pipeline" -> {"transformer", "capture", "marker_regex", "header_trigger", "ips", "datetime", "time", "weekdays", "path", "query", "target", "body_filter",
-                              "header_filter", "codes", "request_path", "request_host", "request_misc", "response", "body"}
+                              "header_filter", "codes", "request_path", "request_host", "request_misc", "response", "body", "sibling_rule"}
     [] entry = "analysis" -> {"example_url", "example_misc", "max_hops", "target", "domains", "change_set"}
     [] entry = "log" -> {"forwarded", "misc"}
     [] entry = "tokenizer" -> {"body"}
